@@ -241,6 +241,8 @@ fn ret(rng: &mut Rng) -> Ret {
         map: (0..rng.below(3)).map(|_| (gen_str(rng), gen_i32(rng))).collect(),
         opt_str: if rng.chance(1, 2) { Some(gen_str(rng)) } else { None },
         doubles_json: doubles[rng.below(2)].clone(),
+        list: (0..rng.below(3)).map(|_| gen_i32(rng)).collect(),
+        dmap: (0..rng.below(3)).map(|_| (gen_str(rng), gen_f64(rng))).collect(),
     }
 }
 
@@ -342,10 +344,11 @@ pub fn cases(seed: u64, tier: Tier) -> Cases {
         // mapRet / noRet / ctx / safeBody / dblRet
         {
             let k = gen_i32(&mut rng);
-            let log = format!("mapRet(n={:?})", k);
+            let ids: Vec<Uuid> = (0..rng.below(3)).map(|_| gen_uuid(&mut rng)).collect();
+            let log = format!("mapRet(n={:?}, ids={:?})", k, ids);
             both!(run, rng, r, |c, fl| {
-                let out = call!(fl, c, map_ret(k), |v: BTreeMap<String, i32>| format!("{:?}", v));
-                run.check(fl, "mapRet", Texts(vec![vec![plain(&k)]]), ("none", 0), "json", r.map.is_empty(), &c, out, log.clone(), format!("{:?}", r.map), false);
+                let out = call!(fl, c, map_ret(k, &ids), |v: BTreeMap<String, i32>| format!("{:?}", v));
+                run.check(fl, "mapRet", Texts(vec![vec![plain(&k)], ids.iter().map(plain).collect()]), ("none", 0), "json", r.map.is_empty() || ids.is_empty(), &c, out, log.clone(), format!("{:?}", r.map), false);
             });
             let a = if rng.chance(1, 2) { Some(gen_str(&mut rng)) } else { None };
             let bad = rng.chance(1, 6);
@@ -368,6 +371,23 @@ pub fn cases(seed: u64, tier: Tier) -> Cases {
             both!(run, rng, r, |c, fl| {
                 let out = call!(fl, c, safe_body(sb), |v: i32| format!("{:?}", v));
                 run.check(fl, "safeBody", Texts(vec![vec![]]), ("json", sb.to_string().len()), "json", sb <= 0, &c, out, log.clone(), format!("{:?}", sb), false);
+            });
+            // alias-of-collection return types (an empty value travels as 204 and must come back as the empty value)
+            let k = gen_i32(&mut rng);
+            let log = format!("listAliasRet(n={:?})", k);
+            both!(run, rng, r, |c, fl| {
+                let out = call!(fl, c, list_alias_ret(k), |v: ListAlias| format!("{:?}", v));
+                run.check(fl, "listAliasRet", Texts(vec![vec![plain(&k)]]), ("none", 0), "json", r.list.is_empty(), &c, out, log.clone(), format!("{:?}", ListAlias(r.list.clone())), false);
+            });
+            let log = format!("optAliasRet(n={:?})", k);
+            both!(run, rng, r, |c, fl| {
+                let out = call!(fl, c, opt_alias_ret(k), |v: OptStrAlias| format!("{:?}", v));
+                run.check(fl, "optAliasRet", Texts(vec![vec![plain(&k)]]), ("none", 0), "json", r.opt_str.is_none(), &c, out, log.clone(), format!("{:?}", OptStrAlias(r.opt_str.clone())), false);
+            });
+            let log = format!("mapAliasRet(n={:?})", k);
+            both!(run, rng, r, |c, fl| {
+                let out = call!(fl, c, map_alias_ret(k), |v: MapAlias| format!("{:?}", v));
+                run.check(fl, "mapAliasRet", Texts(vec![vec![plain(&k)]]), ("none", 0), "json", r.dmap.is_empty(), &c, out, log.clone(), format!("{:?}", MapAlias(r.dmap.clone())), false);
             });
             let x = gen_f64(&mut rng);
             let log = format!("dblRet(x={:?})", x.to_bits());
